@@ -398,8 +398,38 @@ Fixpoint dt_by_prefix (tbl : list (str * Z * str)) (a : str) : option str :=
     if contains pfx a then Some (ns ++ slice_from a (find pfx a + off)) else dt_by_prefix tbl' a
   end.
 
-(** [decide_literal_type] *)
-Definition decide_literal_type (a : str) (b : option str) : res str :=
+(** the prefixed-datatype branches of the repaired [decide_literal_type]: [a_type.startswith(pfx)] *)
+Fixpoint dt_by_start (tbl : list (str * Z * str)) (t : str) : option str :=
+  match tbl with
+  | [] => None
+  | (pfx, off, ns) :: tbl' =>
+    if prefixb pfx t then Some (ns ++ slice_from t off) else dt_by_start tbl' t
+  end.
+
+(** [decide_literal_type] after repair C06-B: the kind is read from what follows the LAST quote *)
+Definition decide_literal_type_sfx (a : str) (b : option str) : res str :=
+  let q := rfind s_quote a in
+  let suffix := if 0 <=? q then strip (slice_from a (q + 1)) else [] in
+  if prefixb ttl_lang_suffix suffix then Ok c_LANG_STRING_TYPE
+  else if negb (prefixb ttl_dt_suffix_marker suffix) then
+    (if arroba_after_last_quotes a then Ok c_LANG_STRING_TYPE else Ok c_STRING_TYPE)
+  else
+    let t := slice_from suffix 2 in
+    match dt_by_start ttl_dt_prefix_table t with
+    | Some d => Ok d
+    | None =>
+      if prefixb s_lt t && suffixb s_gt t then
+        let cand := slice t 1 (-1) in
+        match b with
+        | Some bs => if negb (is_absolute ttl_scheme_test_datatypes ttl_dt_abs_start cand)
+                     then Ok (bs ++ cand) else Ok cand
+        | None => Ok cand
+        end
+      else Err TERuntime
+    end.
+
+(** [decide_literal_type], the if/elif chain on the whole token *)
+Definition decide_literal_type_chain (a : str) (b : option str) : res str :=
   if arroba_after_last_quotes a then Ok c_LANG_STRING_TYPE
   else if negb (contains ttl_typed_marker a) then Ok c_STRING_TYPE
   else match dt_by_prefix ttl_dt_prefix_table a with
@@ -415,6 +445,9 @@ Definition decide_literal_type (a : str) (b : option str) : res str :=
            end
          else Err TERuntime
        end.
+
+Definition decide_literal_type (a : str) (b : option str) : res str :=
+  if ttl_dlt_from_suffix then decide_literal_type_sfx a b else decide_literal_type_chain a b.
 
 (** [parse_literal] *)
 Definition parse_literal (a : str) (b : option str) : res (str * str) :=
